@@ -41,6 +41,7 @@ impl Worker {
         let exe = std::env::current_exe()?;
         let mut child = Command::new(exe)
             .args(["worker", "--prop", prop, "--tier", tier.name(), "--seed", &seed.to_string(), "--status", &status_path])
+            .env("VERIF_SCRATCH_ROOT", crate::fsbox::scratch_root())
             .env("LC_ALL", "C")
             .env("LANG", "C")
             .env("LANGUAGE", "C")
